@@ -1,7 +1,7 @@
 (* Run/C01.v — case decoder / observable encoder for the C01 correspondence.
    Results:  Ok v -> (0 v..)   Err e -> (1 code)      trees: Str b -> x<b>, Lst l -> ( .. )
    case (0 x<b> n)  -> ( DecodeBytes(b,&interface{})  NewStream.Decode + unread length
-                         Split SplitString SplitList SplitUint64 CountValues
+                         Split  stream Kind+Bytes/Raw (kind, content, unread)  SplitString SplitList SplitUint64 CountValues
                          DecodeBytes into uint8 uint16 uint32 uint64 *big.Int uint256.Int bool []byte [n]byte )
    case (1 tree)    -> x<EncodeToBytes(tree)>
    case (2 i)       -> ( x<enc as *big.Int> [x<enc as uint256> if i<2^256] [x<enc as uint64> x<AppendUint64> if i<2^64] )
@@ -79,7 +79,7 @@ Definition C01_run (c : sx) : sx :=
   match c with
   | SL [SI 0%Z; SB b; SI n] =>
       SL [ r_item (decode_bytes b); r_stream (stream_decode b);
-           r_split (split b); r_split2 (split_string b); r_split2 (split_list b);
+           r_split (split b); r_split (stream_split b); r_split2 (split_string b); r_split2 (split_list b);
            r_uint (split_uint64 b); r_count (count_values b);
            r_N (decode_bytes_with (uint_ 8) b); r_N (decode_bytes_with (uint_ 16) b);
            r_N (decode_bytes_with (uint_ 32) b); r_N (decode_bytes_with (uint_ 64) b);
